@@ -1,6 +1,5 @@
 // Specs and contract harnesses for src/weak/mod.rs (Weak, downgrade, new_cyclic) and for the
 // weak-aware paths of Cc::try_unwrap / Cc::drop (child module => Weak's private fields visible).
-#![allow(dead_code, unused_imports, unused_variables, static_mut_refs)]
 use super::*;
 use crate::cc::verif_proofs as ccp;
 use crate::cc::verif_proofs::md::{self, M};
